@@ -338,6 +338,13 @@ Theorem c15_whole_file_pre73 : forall F G v file,
   = Some (v_minor v, set_header_size (v_header v) (hs_old F v), v_depth v, [], None, hs_old F v, (hs_old F v + List.length (v_low v))%nat)
   /\ exists pre, file = pre ++ v_low v ++ List.concat (v_high v) /\ List.length pre = hs_old F v.
 Proof. exact whole_file_pre73. Qed.
+(** Every fitting file can be written: the premise [encode_file F G v = Some file] above is not a restriction. *)
+Theorem c15_encode_total_73 : forall F G v, fmts_wf F = true -> (3 <= v_minor v)%Z -> vfile_fits F G v = true ->
+  exists file, encode_file F G v = Some file.
+Proof. exact encode_total_73. Qed.
+Theorem c15_encode_total_pre73 : forall F G v, fmts_wf F = true -> (v_minor v < 3)%Z -> vfile_fits_old F v = true ->
+  exists file, encode_file F G v = Some file.
+Proof. exact encode_total_pre73. Qed.
 (** Container, side lists, loop order and block layout composed: a file whose image part is the frames in the order of
     save()'s loop nest over the sides of the version WRITTEN.  read() - walking its own loop nest over the sides of the
     version it finds, from the first-frame offset it decodes - finds for every (frame, side, mipmap) exactly the bytes
